@@ -4,6 +4,11 @@ HERE = os.path.dirname(os.path.abspath(__file__))
 VERIF = os.path.dirname(HERE)
 
 CHECKS = {
+ "C04": dict(
+    text="Lean theorems (Props/C04.lean, 56 obligations) over the assembly model Model/Api.lean, generic in the block type, for EVERY number of atoms and every placement of (shell A, shell B, ECP) on atoms: H_START packs the Hessian exactly as documented (closed form, bounds, injectivity); matrix 3n+q of the first-derivative list receives exactly the derivatives of the centres on atom n; the matrix at the documented position of (a,b,p,q) receives exactly the sum over centres X on a, Y on b of d2/dX_p dY_q - all five branches, ixes/back_ixes/jxes, transposed reads. H_START and the index arrays are re-extracted from the source on every run; the model is tied to the code by assembling the real engine's per-triple blocks in the compiled Lean driver and comparing with ECPIntegrator's own matrices at 1e-13 over systems reaching every coincidence pattern in both orders. Atom numbering, list lengths, shape and symmetry are checked on the implementation directly; finite differences w.r.t. moving whole atoms are the fallback search.",
+    note="Trusted: Lean kernel; translate/indexmaps.py; harness/corr_api.cpp (restates the distance-screen threshold to tell the model which (shell,ECP) pairs are kept); block-wise action of the element loops on disjoint index ranges is validated by the correspondence, not proved. The values of the per-triple blocks are inputs (C01-C03). Generated systems keep atoms >= 1 bohr apart with bit-identical centres per atom.",
+    technique="Lean 4 proof of the scatter/packing for all atom counts + translator-fed model + differential correspondence at 1e-13",
+    design="3/C04"),
  "C17": dict(
     text="Lean theorems (Props/C17.lean) over an object/heap machine whose copy operations are defined from a table extracted from the class definitions by clang's AST on every run: (i) every copy operation of GaussianShell carries every attribute and re-points a local centre (decide on the table); (ii) the invariant 'a local-centre shell points at its own storage' holds in every heap reachable by ANY operation sequence; (iii) under it an operation on one object changes nothing observable of another and nothing dangles; (iv) copies show what the source shows; (v) the value classes have no raw-pointer member and every copy op mentions every member. Tied to the code by the translator and by driving real objects (address-level pointer classification, std::vector algorithms, value-class round trips; ASan+UBSan in the thorough tier).",
     note="Trusted: Lean kernel; translate/copysem.py (pattern walk over clang-14 JSON AST); harness/corr_copy.cpp. std::vector/std::sort are modelled as arbitrary compositions of element copy/assign/destroy; sharing a caller-owned buffer between copies of an external-pointer shell is by design; the integrator's shared_ptr engine is immutable after init().",
